@@ -47,7 +47,7 @@ func (fr *Frame) execCall(ins ssa.Instruction, cc *ssa.CallCommon, c *blockCtx) 
 		}
 		if fc == nil {
 			if g.W.ignored(key) {
-				return fr.freshResults(sig, key)
+				return fr.ignoredCall(sig, key, c)
 			}
 			g.fail("no contract for interface method %s (called in %s)", key, funcKey(fr.fn))
 		}
@@ -96,7 +96,7 @@ func (fr *Frame) execCall(ins ssa.Instruction, cc *ssa.CallCommon, c *blockCtx) 
 	if key, fc := fr.funcValueContract(cc.Value); fc != nil {
 		return fr.applyContract(fc, key, sig, args, sigParamTypes(sig), c, ins)
 	} else if key != "" && g.W.ignored(key) {
-		return fr.freshResults(sig, key)
+		return fr.ignoredCall(sig, key, c)
 	} else if key != "" {
 		g.fail("no contract for function value %s (called in %s)", key, funcKey(fr.fn))
 	}
@@ -180,6 +180,17 @@ func (fr *Frame) freshResults(sig *types.Signature, why string) []Term {
 	return out
 }
 
+// ignoredCall: a call the contracts declare to have no effect on modelled state (loggers). It still is an anchor
+// for "assert ... at before|after call Name#k" clauses.
+func (fr *Frame) ignoredCall(sig *types.Signature, key string, c *blockCtx) []Term {
+	fr.callOrd["call:"+key]++
+	site := fmt.Sprintf("%s#%d", lastName(key), fr.callOrd["call:"+key]-1)
+	fr.anchor("before call "+site, c, nil)
+	res := fr.freshResults(sig, key)
+	fr.anchor("after call "+site, c, res)
+	return res
+}
+
 func lastName(k string) string {
 	if i := strings.LastIndexAny(k, "./)"); i >= 0 {
 		return k[i+1:]
@@ -215,7 +226,7 @@ func (fr *Frame) callStatic(fn *ssa.Function, bindings []Term, args []Term, sig 
 		return fr.applyContract(fc, key, fn.Signature, args, pts, c, ins)
 	}
 	if g.W.ignored(key) {
-		return fr.freshResults(sig, key)
+		return fr.ignoredCall(sig, key, c)
 	}
 	if len(fn.Blocks) > 0 && (fc != nil && fc.Inline || fn.Parent() != nil || g.W.autoInline(fn)) {
 		if fr.depth() >= maxInlineDepth {
